@@ -110,7 +110,7 @@ func SelfTest() error {
 	}
 	m0, m1 := rep(0, 50), rep(0x11, 500) // 400 zero bits; 4000 bits of 0x11
 	for i, v := range []struct {
-		key, iv, ivp, msg     []byte
+		key, iv, ivp, msg    []byte
 		mac32, mac64, mac128 string
 	}{
 		{k0, iv0, iv0p, m0, "9b972a74", "673e54990034d38c", "d85e54bbcb9600967084c952a1654b26"},
